@@ -1126,3 +1126,67 @@ def page_window(ctx):
         ctx.violate(q, 'page %d with limit %d reads the cached transactions with index %s, expected %s' % (first[0], first[1], first[2][:9], first[3][:9]), conds[0],
                     'after page 2 was cached, page 1 is answered from the cache with limit+1 transactions - the first transaction of page 2 included - and no provider is asked: not what any provider returned')
     ctx.floor(n, 35, '(page, limit) pairs')
+
+
+def _may_return_false(fn):
+    rets = [r for r in walk_no_nested(fn) if isinstance(r, ast.Return)]
+    has_false = any(isinstance(r.value, ast.Constant) and r.value.value is False for r in rets)
+    other = any(r.value is not None and not (isinstance(r.value, ast.Constant) and isinstance(r.value.value, bool)) for r in rets)
+    return has_false and other
+
+
+@PROP.obligation('C20.false-not-a-number', canaries=[
+    mut.replace_expr(SVC, 'Cache.gettransaction', 't.block_height and blockcount', 't.block_height', 'confirmations computed from an unavailable block count'),
+    mut.replace_expr(SVC, 'Cache.gettransactions', 't.block_height and blockcount', 't.block_height', 'confirmations of address transactions computed from an unavailable block count'),
+])
+def false_not_a_number(ctx):
+    """Cache and Service methods signal "not available" with False (Cache.blockcount once the stored count has expired, every Cache
+    reader with the cache switched off). False is also the number 0: `(self.blockcount() - t.block_height) + 1` turns an expired block
+    count into -989 confirmations on a transaction that was stored with 11. Wherever services.py uses the result of a method of
+    Cache / Service that can return False as an operand of + - * / //, the operand is a local that a truth test guards on every path
+    (if x: ... / `h and x`), never the call itself."""
+    mod = ctx.repo.mod(SVC)
+    falsy_methods = {}
+    for name, fn in mod.functions.items():
+        if '.' in name and name.split('.')[0] in ('Cache', 'Service') and _may_return_false(fn):
+            falsy_methods.setdefault(name.split('.')[0], set()).add(name.split('.')[1])
+    ctx.saw('methods that answer False or a value: %s' % {k: sorted(v) for k, v in falsy_methods.items()})
+    n = 0
+    for name, fn in sorted(mod.functions.items()):
+        cls = name.split('.')[0] if '.' in name else None
+        if cls not in ('Cache', 'Service'):
+            continue
+        q = '%s:%s' % (SVC, name)
+
+        def falsy_call(c):
+            if not (isinstance(c, ast.Call) and isinstance(c.func, ast.Attribute)):
+                return False
+            base = norm(c.func.value)
+            owner = cls if base == 'self' else ('Cache' if base == 'self.cache' else None)
+            return owner is not None and c.func.attr in falsy_methods.get(owner, ())
+        holders = {}
+        for a in walk_no_nested(fn):
+            if isinstance(a, ast.Assign) and len(a.targets) == 1 and isinstance(a.targets[0], ast.Name) and falsy_call(a.value):
+                holders[a.targets[0].id] = a
+        g = None
+        for b in walk_no_nested(fn):
+            if not (isinstance(b, ast.BinOp) and isinstance(b.op, (ast.Add, ast.Sub, ast.Mult, ast.Div, ast.FloorDiv))):
+                continue
+            if isinstance(b.op, ast.Add) and not any(isinstance(x, ast.Constant) and isinstance(x.value, (int, float)) for x in (b.left, b.right)):
+                continue        # + also joins lists (cached answers + provider answers); only number arithmetic is meant
+            for side in (b.left, b.right):
+                if falsy_call(side):
+                    n += 1
+                    ctx.violate(q, '`%s` uses the answer of %s, which is False when nothing is available, as a number' % (norm(b)[:60], norm(side.func)), b,
+                                'a cached transaction at height 990 under an expired block count of 1000 is served with -989 confirmations: not the answer that was stored')
+                elif isinstance(side, ast.Name) and side.id in holders:
+                    n += 1
+                    if g is None:
+                        g = build_cfg(fn)
+                    nodes = [nd for nd in g.nodes if nd.ast is not None and nd.kind in ('stmt', 'return') and any(x is b for x in ast.walk(nd.ast))]
+                    guarded = bool(nodes) and all(any(pol == 'T' and side.id in [x.id for x in ast.walk(g[t].ast) if isinstance(x, ast.Name)] and not isinstance(g[t].ast, ast.Compare)
+                                                      for t, pol in guards_of(g, nd.id)) for nd in nodes)
+                    ctx.saw('%s: `%s` with %s = %s, guarded by a truth test: %s' % (name, norm(b)[:50], side.id, norm(holders[side.id].value)[:40], guarded))
+                    ctx.require(guarded, q, '`%s` computes with `%s` = %s, which is False when nothing is available, without a truth test of it on the way' % (norm(b)[:60], side.id, norm(holders[side.id].value)[:50]), b,
+                                'a cached transaction is served with a negative confirmation count once the cached block count has expired')
+    ctx.floor(n, 2, 'computations with an answer that may be False')
